@@ -1,7 +1,7 @@
 (* C35 -- property theorems only. *)
 From Coq Require Import ZArith QArith List Bool.
 Import ListNotations.
-Require Import NV.C35.Model NV.C35.Proofs NV.C35.ProofsLos NV.C35.ProofsOps.
+Require Import NV.C35.Model NV.C35.ModelAdj NV.C35.Proofs NV.C35.ProofsLos NV.C35.ProofsOps NV.C35.ProofsAdj.
 Local Open Scope Q_scope.
 
 (* Multilinear interpolation weights of LinearInterpolator._build_mat, any dimension:
@@ -67,6 +67,14 @@ Theorem C35_regrid_convex : forall n_old n_new i : Z,
   0 <= regrid_frac n_old n_new i /\ regrid_frac n_old n_new i <= 1 /\
   (0 <= regrid_bindex n_old n_new i <= n_old - 2)%Z.
 Proof. exact regrid_frac_range. Qed.
+
+(* RegriddingOperator, ADJOINT_TIMES (np.add.at scatter of v*(1-frac) to bindex and v*frac to bindex+1):
+   for every coarse vector w (1 <= |w| <= n_old, n_old >= 2) the result lives on the n_old fine pixels (no
+   contribution is scattered outside the array) and the total is conserved: sum(R^T w) = sum(w) *)
+Theorem C35_regrid_adjoint_conserves : forall (w : list Q) (n_old : Z),
+  (2 <= n_old)%Z -> (1 <= Z.of_nat (length w) <= n_old)%Z ->
+  length (regrid_adj_1d w n_old) = Z.to_nat n_old /\ qsum (regrid_adj_1d w n_old) == qsum w.
+Proof. exact regrid_adjoint_conserves. Qed.
 
 (* LOS with parallax errors: along the line the treatment of the sub-segments goes from "full weight" (up to
    the near truncation distance lo) over "weighted by the survival function" to "dropped" (beyond the far
